@@ -783,7 +783,7 @@ class UniformTime(np.ndarray, TimeInterface):
             You can either use += on the full array, OR
             create a new TimeArray from this UniformTime""")
 
-    def _convert_and_check_uniformity(self, val):
+    def _convert_and_check_uniformity(self, val, sign=1):
         # look at the units - convert the values to what they need to be (in
         # the base_unit) and then delegate to the ndarray.__iadd__
         if not hasattr(val, '_conversion_factor'):
@@ -802,7 +802,8 @@ class UniformTime(np.ndarray, TimeInterface):
                     interval between them in order to preserve uniformity.
                     Uniformity is broken at these indices: %s
                     """ %str(uniformity_breaks))
-            self.sampling_interval += dv[0]
+            # adding a ramp widens the interval, subtracting one narrows it:
+            self.sampling_interval += sign * dv[0]
             self.sampling_rate = Frequency(1.0 / (float(self.sampling_interval) /
                                         time_unit_conversion[self.time_unit]),
                                         time_unit=self.time_unit)
@@ -813,7 +814,7 @@ class UniformTime(np.ndarray, TimeInterface):
         return np.ndarray.__iadd__(self, val)
 
     def __isub__(self, val):
-        val = self._convert_and_check_uniformity(val)
+        val = self._convert_and_check_uniformity(val, sign=-1)
         return np.ndarray.__isub__(self, val)
 
     def __imul__(self, val):
